@@ -50,10 +50,14 @@ def abst(kind: str, x) -> str:
     if x is None:
         return NONE
     if kind == "number":
+        try:
+            fx = float(x)
+        except (OverflowError, ValueError, TypeError):
+            return "n?huge" if isinstance(x, int) else "n?%.40r" % (x,)
         for t, val in NUM.items():
-            if abs(float(x) - val) < 1e-6:
+            if abs(fx - val) < 1e-6:
                 return t
-        return "n?%r" % (x,)
+        return "n?%.40r" % (x,)
     if kind == "blob":
         for t, (b, f) in BLOBS.items():
             if getattr(x, "binary", None) == b and getattr(x, "format", None) == f:
